@@ -560,7 +560,7 @@ fn c17_cell_te_gzip() {
 }
 
 //@ like: c17_cell_no_headers
-//@ tier: thorough
+//@ tier: off
 #[kani::proof]
 fn c17_cell_te_chunked_with_bad_added_length() {
     c17_menu_case_full(0, false, 0, true, 1, true);
